@@ -385,4 +385,441 @@ theorem c19_http_default_only (s : State) (h : Bytes) :
     have : (hexStr h == "") = false := by simpa using hne
     exact ⟨by simp [getBeaconHandler, this], c19_hex_ne_default h⟩
 
+
+/-! ### table maintenance keeps the tables consistent -/
+
+/-- `Inv` only looks at the three tables, through `aget` -/
+private theorem inv_congr {s s' : State} (h1 : ∀ j, aget j s'.procs = aget j s.procs)
+    (h2 : ∀ k, aget k s'.hashes = aget k s.hashes) (h3 : ∀ k, aget k s'.http = aget k s.http)
+    (hs : Inv s) : Inv s' := by
+  constructor
+  · intro i p h; rw [h1] at h; exact hs.procKey i p h
+  · intro k id h; rw [h2] at h; rw [h1]; exact hs.hashOk k id h
+  · intro k r h; rw [h3] at h; rw [h1]; exact hs.httpOk k r h
+
+/-- a (new) process object is put under an id that is not running: no table entry can refer to it -/
+private theorem inv_newproc {s s' : State} (hs : Inv s) (i : Id) (hi : canon i = i) (hn : aget i s.procs = none)
+    (p : Proc) (h1 : ∀ j, aget j s'.procs = if j = i then some p else aget j s.procs)
+    (h2 : ∀ k, aget k s'.hashes = aget k s.hashes) (h3 : ∀ k, aget k s'.http = aget k s.http) : Inv s' := by
+  constructor
+  · intro j q h
+    rw [h1] at h
+    by_cases hj : j = i
+    · subst hj; exact hi
+    · rw [if_neg hj] at h; exact hs.procKey j q h
+  · intro k id h
+    rw [h2] at h
+    obtain ⟨q, g, hq, hg, hk⟩ := hs.hashOk k id h
+    have : canon id ≠ i := by intro e; rw [e, hn] at hq; cases hq
+    exact ⟨q, g, by rw [h1, if_neg this]; exact hq, hg, hk⟩
+  · intro k r h
+    rw [h3] at h
+    obtain ⟨q, g, hq, hgen, hg, hk⟩ := hs.httpOk k r h
+    have : r.id ≠ i := by intro e; rw [e, hn] at hq; cases hq
+    exact ⟨q, g, by rw [h1, if_neg this]; exact hq, hgen, hg, hk⟩
+
+private theorem inv_add {s : State} (hs : Inv s) (beaconID own : Id) (bp : Proc) (g : Group)
+    (hbp : aget own s.procs = some bp) (hg : bp.group = some g) (hc : canon beaconID = own) :
+    Inv (addBeaconHandler s beaconID own bp) := by
+  unfold addBeaconHandler
+  rw [hg]
+  simp only
+  have hown : ∃ p g', aget (canon beaconID) s.procs = some p ∧ p.group = some g' ∧ g' = g :=
+    ⟨bp, g, by rw [hc]; exact hbp, hg, rfl⟩
+  split
+  · rename_i hd
+    have hcd : canon beaconID = defaultBeaconID := canon_of_default hd
+    constructor
+    · intro i p h; exact hs.procKey i p h
+    · intro k id h
+      simp only [aget_aset] at h
+      split at h
+      · cases h
+        exact ⟨bp, g, by rw [hc]; exact hbp, hg, Or.inr ⟨by assumption, hcd⟩⟩
+      · split at h
+        · cases h
+          exact ⟨bp, g, by rw [hc]; exact hbp, hg, Or.inl (by assumption)⟩
+        · exact hs.hashOk k id h
+    · intro k r h
+      simp only [aget_aset] at h
+      split at h
+      · cases h
+        exact ⟨bp, g, hbp, rfl, hg, Or.inr ⟨by assumption, by rw [← hc]; exact hcd⟩⟩
+      · split at h
+        · cases h
+          exact ⟨bp, g, hbp, rfl, hg, Or.inl (by assumption)⟩
+        · exact hs.httpOk k r h
+  · constructor
+    · intro i p h; exact hs.procKey i p h
+    · intro k id h
+      simp only [aget_aset] at h
+      split at h
+      · cases h
+        exact ⟨bp, g, by rw [hc]; exact hbp, hg, Or.inl (by assumption)⟩
+      · exact hs.hashOk k id h
+    · intro k r h
+      simp only [aget_aset] at h
+      split at h
+      · cases h
+        exact ⟨bp, g, hbp, rfl, hg, Or.inl (by assumption)⟩
+      · exact hs.httpOk k r h
+
+private theorem inv_removeHandler {s : State} (hs : Inv s) (beaconID : Id) (bp : Proc) :
+    Inv (removeBeaconHandler s beaconID bp) := by
+  unfold removeBeaconHandler
+  cases hg : bp.group with
+  | none => exact hs
+  | some g =>
+    simp only
+    split
+    · constructor
+      · exact hs.procKey
+      · exact hs.hashOk
+      · intro k r h
+        exact hs.httpOk k r (aget_adel_some (aget_adel_some h).2).2
+    · constructor
+      · exact hs.procKey
+      · exact hs.hashOk
+      · intro k r h
+        exact hs.httpOk k r (aget_adel_some h).2
+
+/-- after `RemoveBeaconHandler(beaconID, bp)` for the process registered under `beaconID`, no HTTP handler proxies it -/
+private theorem removeHandler_unref {s : State} (hs : Inv s) (x : Id) (bp : Proc)
+    (hbp : aget x s.procs = some bp) :
+    ∀ k r, aget k (removeBeaconHandler s x bp).http = some r → r.id ≠ x := by
+  intro k r h hrx
+  unfold removeBeaconHandler at h
+  cases hg : bp.group with
+  | none =>
+    rw [hg] at h
+    obtain ⟨q, g, hq, _, hqg, _⟩ := hs.httpOk k r h
+    rw [hrx, hbp] at hq; cases hq; rw [hg] at hqg; cases hqg
+  | some g =>
+    rw [hg] at h
+    simp only at h
+    split at h
+    · obtain ⟨hk1, h⟩ := aget_adel_some h
+      obtain ⟨hk2, h⟩ := aget_adel_some h
+      obtain ⟨q, g', hq, _, hqg, hk⟩ := hs.httpOk k r h
+      rw [hrx, hbp] at hq; cases hq; rw [hg] at hqg; cases hqg
+      rcases hk with hk | ⟨hk, _⟩
+      · exact hk2 hk
+      · exact hk1 hk
+    · rename_i hd
+      obtain ⟨hk2, h⟩ := aget_adel_some h
+      obtain ⟨q, g', hq, _, hqg, hk⟩ := hs.httpOk k r h
+      rw [hrx, hbp] at hq; cases hq; rw [hg] at hqg; cases hqg
+      rcases hk with hk | ⟨_, hdx⟩
+      · exact hk2 hk
+      · rw [hrx] at hdx
+        rw [hdx, isDefault_defaultBeaconID] at hd
+        exact hd rfl
+
+private theorem inv_removeProcess {s : State} (hs : Inv s) (x : Id) (hx : canon x = x) (bp : Proc)
+    (hbp : aget x s.procs = some bp) (hun : ∀ k r, aget k s.http = some r → r.id ≠ x) :
+    Inv (removeBeaconProcess s x bp) := by
+  unfold removeBeaconProcess
+  simp only [hx]
+  have key : ∀ (hashes' : List (Key × Id)),
+      (∀ k id, aget k hashes' = some id → aget k s.hashes = some id ∧
+        k ≠ (match bp.group with | some g => hexStr g.hash | none => "") ∧
+        (isDefaultBeaconID x = true → k ≠ defaultChainHash)) →
+      Inv { s with procs := adel x s.procs, hashes := hashes' } := by
+    intro hashes' hh
+    constructor
+    · intro i p h; exact hs.procKey i p (aget_adel_some h).2
+    · intro k id h
+      obtain ⟨hold, hk1, hk2⟩ := hh k id h
+      obtain ⟨q, g, hq, hg, hk⟩ := hs.hashOk k id hold
+      have hne : canon id ≠ x := by
+        intro e
+        rw [e, hbp] at hq; cases hq
+        rw [hg] at hk1
+        rcases hk with hk | ⟨hk, hcd⟩
+        · exact hk1 hk
+        · rw [e] at hcd
+          exact hk2 (by rw [hcd]; exact isDefault_defaultBeaconID) hk
+      exact ⟨q, g, by simp only; rw [aget_adel_ne hne]; exact hq, hg, hk⟩
+    · intro k r h
+      obtain ⟨q, g, hq, hgen, hg, hk⟩ := hs.httpOk k r h
+      exact ⟨q, g, by simp only; rw [aget_adel_ne (hun k r h)]; exact hq, hgen, hg, hk⟩
+  split
+  · rename_i hd
+    apply key
+    intro k id h
+    obtain ⟨h1, h⟩ := aget_adel_some h
+    obtain ⟨h2, h⟩ := aget_adel_some h
+    exact ⟨h, h2, fun _ => h1⟩
+  · rename_i hd
+    apply key
+    intro k id h
+    obtain ⟨h2, h⟩ := aget_adel_some h
+    exact ⟨h, h2, fun hd' => absurd hd' hd⟩
+
+
+/-! ### control calls keep the tables consistent -/
+
+private theorem instantiate_procs (s : State) (i : Id) (j : Id) :
+    aget j (instantiate s i).1.procs = if j = canon i then some (instantiate s i).2 else aget j s.procs := by
+  simp [instantiate, aget_aset]
+
+private theorem instantiate_group (s : State) (i : Id) : (instantiate s i).2.group = none := rfl
+private theorem instantiate_hashes (s : State) (i : Id) : (instantiate s i).1.hashes = s.hashes := rfl
+private theorem instantiate_http (s : State) (i : Id) : (instantiate s i).1.http = s.http := rfl
+
+private theorem inv_loadFromStore {s : State} (hs : Inv s) (i : Id) (hn : aget (canon i) s.procs = none) :
+    Inv (loadBeaconFromStore s i).1 := by
+  unfold loadBeaconFromStore
+  simp only
+  split
+  · refine inv_congr (s := s) ?_ ?_ ?_ hs <;> intro _ <;> rfl
+  · exact hs
+  · exact inv_newproc hs (canon i) (canon_idem i) hn (instantiate s i).2 (instantiate_procs s i)
+      (fun _ => rfl) (fun _ => rfl)
+  · rename_i g _
+    -- the process object with its group loaded, registered under the canonical id
+    have h1 : Inv { (instantiate s i).1 with
+        procs := aset (canon i) ({ (instantiate s i).2 with group := some g } : Proc) (instantiate s i).1.procs } :=
+      inv_newproc hs (canon i) (canon_idem i) hn ({ (instantiate s i).2 with group := some g } : Proc)
+        (fun j => by
+          simp only [aget_aset, instantiate_procs]
+          by_cases h : j = canon i <;> simp [h]) (fun _ => rfl) (fun _ => rfl)
+    exact inv_add h1 i (canon i) ({ (instantiate s i).2 with group := some g } : Proc) g
+      (by simp [aget_aset]) rfl rfl
+  · rename_i g _
+    exact inv_newproc hs (canon i) (canon_idem i) hn ({ (instantiate s i).2 with group := some g } : Proc)
+      (fun j => by
+        simp only [aget_aset, instantiate_procs]
+        by_cases h : j = canon i <;> simp [h]) (fun _ => rfl) (fun _ => rfl)
+
+private theorem loadFromStore_procs_other (s : State) (i j : Id) (hj : j ≠ canon i) :
+    aget j (loadBeaconFromStore s i).1.procs = aget j s.procs := by
+  unfold loadBeaconFromStore
+  simp only
+  split
+  · rfl
+  · rfl
+  · simp [instantiate_procs, hj]
+  · simp only [addBeaconHandler]
+    split <;> simp [aget_aset, instantiate_procs, hj]
+  · simp [aget_aset, instantiate_procs, hj]
+
+private theorem inv_loadBeacon {s : State} (hs : Inv s) (md : Option Req) : Inv (loadBeacon s md).1 := by
+  unfold loadBeacon
+  cases hr : readBeaconID s md with
+  | error e => exact hs
+  | ok id =>
+    simp only
+    unfold getBeaconProcessByID
+    cases hp : aget id s.procs with
+    | some bp => exact hs
+    | none =>
+      simp only
+      exact inv_loadFromStore hs id (by rw [readBeaconID_canon hr]; exact hp)
+
+private theorem inv_shutdown {s : State} (hs : Inv s) (md : Option Req) : Inv (shutdown s md).1 := by
+  unfold shutdown
+  cases hr : readBeaconID s md with
+  | error e => exact hs
+  | ok id =>
+    simp only
+    unfold getBeaconProcessByID
+    cases hp : aget id s.procs with
+    | none => exact hs
+    | some bp =>
+      simp only
+      have hc := readBeaconID_canon hr
+      have h1 := inv_removeHandler hs id bp
+      have hp' : aget id (removeBeaconHandler s id bp).procs = some bp := by
+        unfold removeBeaconHandler
+        cases bp.group with
+        | none => exact hp
+        | some g => simp only; split <;> exact hp
+      exact inv_removeProcess h1 id hc bp hp' (removeHandler_unref hs id bp hp)
+
+/-- the hypothesis under which a DKG completion keeps the tables consistent: a process that already has a group keeps
+its chain hash (the distributed key and the scheme are unchanged by a resharing) -/
+def DkgKeepsHash (s : State) (id : Id) (g : Group) : Prop :=
+  ∀ p g0, aget id s.procs = some p → p.group = some g0 → hexStr g0.hash = hexStr g.hash
+
+private theorem inv_dkg {s : State} (hs : Inv s) (id : Id) (g : Group) (hk : DkgKeepsHash s id g) :
+    Inv (dkgCompleted s id g).1 := by
+  unfold dkgCompleted
+  cases hp : aget id s.procs with
+  | none => exact hs
+  | some bp =>
+    simp only
+    have hid : canon id = id := hs.procKey id bp hp
+    -- storeDKGOutput: the group of the registered object changes
+    have h1 : Inv { s with procs := aset id { bp with group := some g } s.procs,
+                           disk := aset id (.group g) s.disk } := by
+      constructor
+      · intro j q h
+        simp only [aget_aset] at h
+        split at h
+        · rename_i e; rw [e]; exact hid
+        · exact hs.procKey j q h
+      · intro k i h
+        obtain ⟨q, g0, hq, hg0, hkk⟩ := hs.hashOk k i h
+        by_cases hi : canon i = id
+        · rw [hi, hp] at hq; cases hq
+          refine ⟨{ bp with group := some g }, g, by simp [hi, aget_aset], rfl, ?_⟩
+          rcases hkk with hkk | hkk
+          · exact Or.inl (by rw [hkk]; exact hk bp g0 hp hg0)
+          · exact Or.inr hkk
+        · exact ⟨q, g0, by simp only [aget_aset, if_neg hi]; exact hq, hg0, hkk⟩
+      · intro k r h
+        obtain ⟨q, g0, hq, hgen, hg0, hkk⟩ := hs.httpOk k r h
+        by_cases hi : r.id = id
+        · rw [hi, hp] at hq; cases hq
+          refine ⟨{ bp with group := some g }, g, by simp [hi, aget_aset], hgen, rfl, ?_⟩
+          rcases hkk with hkk | hkk
+          · exact Or.inl (by rw [hkk]; exact hk bp g0 hp hg0)
+          · exact Or.inr hkk
+        · exact ⟨q, g0, by simp only [aget_aset, if_neg hi]; exact hq, hgen, hg0, hkk⟩
+    -- the daemon's dkgCallback
+    split
+    · rename_i bp' hbp'
+      split
+      · exact h1
+      · rename_i hsome
+        cases hg' : bp'.group with
+        | none => simp [hg'] at hsome
+        | some g' => exact inv_add h1 (canon g.gid) (canon g.gid) bp' g' hbp' hg' (canon_idem _)
+    · exact h1
+
+/-- `LoadBeaconsFromDisk` is the start-up path: the store folders are pairwise different beacon ids and none of them is
+running -/
+def BootOK (s : State) : Prop :=
+  ((bootStores s).map canon).Nodup ∧ ∀ i ∈ bootStores s, aget (canon i) s.procs = none
+
+private theorem inv_loadEach (single : Bool) (name : Id) (ids : List Id) :
+    ∀ s : State, Inv s → (ids.map canon).Nodup → (∀ i ∈ ids, aget (canon i) s.procs = none) →
+      Inv (loadEach single name s ids).1 := by
+  induction ids with
+  | nil => intro s hs _ _; exact hs
+  | cons i rest ih =>
+    intro s hs hnd hnone
+    have hnd' : (rest.map canon).Nodup := (List.nodup_cons.1 hnd).2
+    have hni : ∀ j ∈ rest, canon j ≠ canon i := by
+      intro j hj e
+      exact (List.nodup_cons.1 hnd).1 (by rw [← e]; exact List.mem_map_of_mem hj)
+    unfold loadEach
+    split
+    · exact ih s hs hnd' (fun j hj => hnone j (List.mem_cons_of_mem _ hj))
+    · have h1 := inv_loadFromStore hs i (hnone i List.mem_cons_self)
+      split
+      · rename_i s' e heq
+        rw [heq] at h1; exact h1
+      · rename_i s' u heq
+        rw [heq] at h1
+        refine ih s' h1 hnd' ?_
+        intro j hj
+        have := loadFromStore_procs_other s i (canon j) (hni j hj)
+        rw [heq] at this
+        rw [this]
+        exact hnone j (List.mem_cons_of_mem _ hj)
+
+private theorem inv_boot {s : State} (hs : Inv s) (single : Bool) (name : Id) (hb : BootOK s) :
+    Inv (loadBeaconsFromDisk s single name).1 := by
+  unfold loadBeaconsFromDisk
+  split
+  · exact hs
+  · exact inv_loadEach single name (bootStores s) s hs hb.1 hb.2
+
+/-- what a history must satisfy beyond the guards the code itself applies -/
+def EvOK (s : State) : Ev → Prop
+  | .dkg id g => DkgKeepsHash s id g
+  | .boot _ _ => BootOK s
+  | _ => True
+
+def RunOK : State → List Ev → Prop
+  | _, [] => True
+  | s, e :: es => EvOK s e ∧ RunOK (step s e).1 es
+
+private theorem inv_step {s : State} (hs : Inv s) (e : Ev) (he : EvOK s e) : Inv (step s e).1 := by
+  cases e with
+  | disk id e =>
+    cases e <;> (refine inv_congr (s := s) ?_ ?_ ?_ hs <;> intro _ <;> rfl)
+  | load md => exact inv_loadBeacon hs md
+  | boot single name => exact inv_boot hs single name he
+  | stop md => exact inv_shutdown hs md
+  | dkg id g => exact inv_dkg hs id g he
+
+private theorem inv_init : Inv State.init := by
+  constructor <;> intro _ _ h <;> simp [State.init, aget] at h
+
+private theorem inv_run (evs : List Ev) : ∀ s, Inv s → RunOK s evs → Inv (run s evs) := by
+  induction evs with
+  | nil => intro s hs _; exact hs
+  | cons e es ih =>
+    intro s hs hr
+    exact ih (step s e).1 (inv_step hs e hr.1) hr.2
+
+/-
+Full statement (DESIGN.md §3 C19, `c19_table_inv`): for EVERY history of table operations the tables stay
+consistent (`Inv`): `hashes[h] = id ⇒ id ∈ procs ∧ procs[id].chainHash = h` (or h = "default" ∧ id = "default"),
+and likewise for the HTTP handler table, so no stale entry survives a stop.
+
+As coded this holds
+ * unconditionally for every history of key-folder changes, `LoadBeacon` and `Shutdown` control calls — the
+   load / stop / reload histories the property quantifies over (`c19_table_inv`);
+ * for histories that also contain DKG completions and start-up loads only under `RunOK`
+   (`c19_table_inv_partial`): a DKG completion on a process that has a group must keep its chain hash, and
+   `LoadBeaconsFromDisk` must run while none of the stored beacons is running. Neither is checked by the code:
+   `storeDKGOutput` / `dkgCallback` register the new hash and leave the old one, `LoadBeaconsFromDisk` has no
+   "already running" guard. `c19_table_inv_counterexample` is the concrete stale entry.
+-/
+
+def isLoadStop : Ev → Bool
+  | .disk _ _ | .load _ | .stop _ => true
+  | _ => false
+
+private theorem runOK_of_loadStop (evs : List Ev) : ∀ s, (∀ e ∈ evs, isLoadStop e = true) → RunOK s evs := by
+  induction evs with
+  | nil => intro _ _; trivial
+  | cons e es ih =>
+    intro s h
+    refine ⟨?_, ih _ (fun e' he' => h e' (List.mem_cons_of_mem _ he'))⟩
+    have := h e List.mem_cons_self
+    cases e <;> simp [isLoadStop] at this <;> trivial
+
+/-- **No stale routing entry, for every load / stop / reload history.** -/
+theorem c19_table_inv (evs : List Ev) (h : ∀ e ∈ evs, isLoadStop e = true) : Inv (run State.init evs) :=
+  inv_run evs _ inv_init (runOK_of_loadStop evs _ h)
+
+/-- The same for histories with DKG completions and start-up loads, under the hypotheses the proof forces. -/
+theorem c19_table_inv_partial (s : State) (hs : Inv s) (evs : List Ev) (h : RunOK s evs) : Inv (run s evs) :=
+  inv_run evs s hs h
+
+private instance {ε α : Type} [DecidableEq ε] [DecidableEq α] : DecidableEq (Except ε α) := fun a b =>
+  match a, b with
+  | .ok x, .ok y => if h : x = y then isTrue (by rw [h]) else isFalse (by intro e; cases e; exact h rfl)
+  | .error x, .error y => if h : x = y then isTrue (by rw [h]) else isFalse (by intro e; cases e; exact h rfl)
+  | .ok _, .error _ => isFalse (by intro e; cases e)
+  | .error _, .ok _ => isFalse (by intro e; cases e)
+
+/-- Witness that `DkgKeepsHash` is needed: load `foo` with a group of chain hash `aa`, then complete a DKG on it whose
+group has chain hash `bb`. The old key still routes to `foo`, whose chain is now `bb`: a request naming chain `aa`
+is answered by a process of chain `bb`. (Replayed on the real code by the check: `assumption_witness`.) -/
+theorem c19_table_inv_counterexample :
+    let evs := [Ev.disk "foo" (some (.group ⟨"foo", [0xaa]⟩)), .load (some ⟨"foo", []⟩), .dkg "foo" ⟨"foo", [0xbb]⟩]
+    let s := run State.init evs
+    route s (some ⟨"", [0xaa]⟩) = .ok ("foo", ⟨1, some ⟨"foo", [0xbb]⟩⟩) ∧ ¬ Inv s := by
+  refine ⟨by decide, ?_⟩
+  intro hinv
+  have h : aget "aa" (run State.init
+      [Ev.disk "foo" (some (.group ⟨"foo", [0xaa]⟩)), .load (some ⟨"foo", []⟩), .dkg "foo" ⟨"foo", [0xbb]⟩]).hashes
+      = some "foo" := by decide
+  obtain ⟨p, g, hp, hg, hk⟩ := hinv.hashOk _ _ h
+  have hp' : aget (canon "foo") (run State.init
+      [Ev.disk "foo" (some (.group ⟨"foo", [0xaa]⟩)), .load (some ⟨"foo", []⟩), .dkg "foo" ⟨"foo", [0xbb]⟩]).procs
+      = some ⟨1, some ⟨"foo", [0xbb]⟩⟩ := by decide
+  rw [hp'] at hp
+  cases hp
+  cases hg
+  rcases hk with hk | ⟨hk, _⟩
+  · exact absurd hk (by decide)
+  · exact absurd hk (by decide)
+
 end Drand.Daemon
